@@ -700,6 +700,18 @@ func init() {
 			var e *Term = ErrNil
 			switch src := c.Args[1].(type) {
 			case *EncVal:
+				if src.Enc == "raw" && cur != nil {
+					// bytes of unknown provenance (foreign store): unconstrained decoded value
+					nv := x.freshTerm("decoded", cur.Sort)
+					st.assume(TypeInv(nv, pv.Obj.typ, 0))
+					x.store(st, pv, nv)
+					if must {
+						x.panicSite(f, st, x.freshTerm("unmarshal_fails", SBool), "MustUnmarshal of foreign bytes at "+c.Pos)
+					} else {
+						e = x.freshTerm("unmarshalerr", SErr)
+					}
+					break
+				}
 				if cur != nil {
 					if v := rewrapGogo(src.V, cur.Sort); v != nil && src.Enc == "proto" {
 						// values in the store were written by typed code (A-CODEC): machine-integer ranges hold
